@@ -36,9 +36,21 @@ void h_tokenize(void)
     buf[__verif_len] = 0;
     int cnt;
     Token *r = tokenize(buf, &cnt);
-    VERIF_COVER(r == NULL);
-    VERIF_COVER(r != NULL);
     VERIF_COVER(r != NULL && __verif_len == 5);
+#ifdef LEX_COVER_NULL
+    VERIF_COVER(r == NULL);
+#endif
+}
+
+/* the seven classes of the case split cover every byte */
+void h_cases(void)
+{
+    lex_ctype_init();
+    char c = (char)nondet_u8();
+    __CPROVER_assert(LEX_P0(c) || LEX_P1(c) || LEX_P2(c) || LEX_P3(c) || LEX_P4(c) || LEX_P5(c) || LEX_P6(c),
+                     "C09.lex case split is exhaustive");
+    VERIF_COVER(LEX_P6(c));
+    VERIF_COVER(LEX_P4(c) && (unsigned char)c >= 0x80);
 }
 
 void h_keyword(void)
